@@ -108,6 +108,10 @@ def execute_sim(case):
             h.start()
             h.run()
             busy = not w.quiescent()
+            if w.exited:
+                # the history itself ended the daemon (quit / daemon-level
+                # restart): there is nobody left to receive the trigger
+                return [], False, ['exited-before-trigger']
             if busy:
                 classes.add('shutdown-during-operation')
             fire(trig)
@@ -142,6 +146,12 @@ def execute_sim(case):
                 viols.append(Violation(
                     'C08:exit-error', 'closing down raised %s'
                     % w.exit_error))
+            if w.exit_restarting and trig != 'quit':
+                viols.append(Violation(
+                    'C08:restarted-instead-of-exiting',
+                    '%s was delivered at t=%.3f, yet the daemon left its '
+                    'loop in order to restart, not to exit' % (
+                        trig, fired[0])))
             k.apply_due()
             alive = w.eff_live()
             if alive:
@@ -334,6 +344,7 @@ ENUM_OPS = {
     "check-respawn": [["exit", 0, ["exit", 1]], ["exit", 0, ["exit", 1]],
                       ["check"]],
     "kill": [["req", "kill", {"name": "w0"}]],
+    "arbiter-restart": [["req", "restart", {}]],
 }
 
 
